@@ -254,7 +254,7 @@ class World(BaseWorld):
         if fn is None:
             raise HarnessError("unknown op %r" % op["op"])
         W.MON.fired.clear()
-        tracer = None
+        self.lib_raised = False
         try:
             if op.get("interrupt_at"):
                 with LineTracer(lib_prefix(), "interrupt", op["interrupt_at"]):
@@ -270,6 +270,11 @@ class World(BaseWorld):
                 if t.get("running"):
                     t["status"] = "dead"
             return "interrupted"
+        if W.MON.fired and self.lib_raised:
+            # the request was refused with an error: a temporary built before the library noticed
+            # is not a diagram that was handed back (recorded, not a violation)
+            self.note("monitor_fired_before_a_refusal", len(W.MON.fired))
+            W.MON.fired.clear()
         if W.MON.fired:
             msg, cls = W.MON.fired[0]
             n = len(W.MON.fired)
@@ -302,8 +307,10 @@ class World(BaseWorld):
             raise
         except RecursionError:
             self.note("recursion_error")
+            self.lib_raised = True
             return None, "RecursionError"
         except Exception as err:
+            self.lib_raised = True
             if legal is False:
                 self.note("F1_refused")
             else:
@@ -809,6 +816,7 @@ class World(BaseWorld):
             raise
         except Exception as err:
             t["status"] = "dead"
+            self.lib_raised = True
             self.note("legal_request_raised_" + type(err).__name__)
             return type(err).__name__
         finally:
